@@ -240,7 +240,11 @@ def check_literal(yp, yp2, j, cls, term, text):
         x = yp.variable()
         rows = []
         for _ in yp.query('%s%d' % (pred, j), [x]):
-            rows.append((impl.observe([x]), impl.engine.to_python(x) if has_py else None))
+            try:
+                pyv = impl.engine.to_python(x) if has_py else None
+            except Exception as e:  # noqa: BLE001
+                return ('violation', 'to_python-raises:' + pred, 'literal %s: to_python of the answer raised %r' % (lit, e), None, steps)
+            rows.append((impl.observe([x]), pyv))
         steps += 1
         where = {'l': 'fact argument', 'h': 'head argument of a rule', 'b': 'right-hand side of = in a body', 'g': 'body-goal argument'}[pred]
         if len(rows) != 1:
